@@ -31,9 +31,11 @@ QuickVC1 == {"s3", "n5", "g24", "max", "h", "z"}
 BaseVC == {"s3", "h", "z"}
 BaseMaxVC == {"s3", "h", "z", "max"}
 AllCopyRoutes == CopyRoutes
-PairsAll == {<<2, 1>>, <<3, 1>>, <<1, 2>>, <<1, 3>>, <<2, 3>>, <<3, 2>>}
-PairsQuick == {<<3, 1>>, <<2, 1>>, <<2, 3>>}
-UPairsQuick == {<<1, 3>>, <<3, 2>>}
+PairsAll == {<<2, 1>>, <<3, 1>>, <<1, 2>>, <<1, 3>>, <<2, 3>>, <<3, 2>>, <<11, 1>>, <<1, 11>>, <<11, 3>>}
+PairsSix == {<<2, 1>>, <<3, 1>>, <<1, 2>>, <<1, 3>>, <<2, 3>>, <<3, 2>>}
+UPairsFull == PairsSix \cup {<<1, 11>>}
+PairsQuick == {<<3, 1>>, <<2, 1>>, <<2, 3>>, <<11, 1>>, <<3, 11>>}
+UPairsQuick == {<<1, 3>>, <<3, 2>>, <<1, 11>>}
 UPairsOut == {<<1, 3>>}
 OpsAll == ArithOps \cup CmpOps
 OpsQuick == {"add", "subtract", "maximum", "less", "equal"}
@@ -42,8 +44,8 @@ OpsOutAll == {"add", "subtract", "maximum"}
 ShapesAll == {"q", "a"}
 UShapesAll == {"qq", "aa"}
 UShapesQuick == {"aa"}
-FamsAll == {"conv", "ufunc", "out", "real", "comb"}
-FamsConv == {"conv", "real"}
+FamsAll == {"conv", "ufunc", "out", "real", "comb", "ureal"}
+FamsConv == {"conv", "real", "ureal"}
 FamsUfunc == {"ufunc"}
 FamsOut == {"out"}
 FamsComb == {"comb"}
@@ -53,7 +55,15 @@ CVBQuick == {"s3", "n5", "max", "h", "z"}
 CPairsQuick == {<<1, 3>>, <<3, 2>>, <<2, 1>>}
 COpsQuick == {"add", "maximum", "less", "equal"}
 COpsFull == {"add", "subtract", "maximum", "less", "equal", "greater_equal"}
-RealPairs == {<<4, 5>>, <<5, 4>>, <<5, 1>>}
+\* km->mile, mile->km, mile->m; decimal prefixes: cm->m, mm->km, cm->Mm (1e-8: below float16), km->cm (1e5: above
+\* float16), ym->Ym (1e-48: below float32), Ym->ym; table values held as NumPy scalars / int: l_pl->m, m->l_pl, Wh->J, dB->B
+RealPairs == {<<4, 5>>, <<5, 4>>, <<5, 1>>, <<6, 1>>, <<7, 4>>, <<6, 8>>, <<4, 6>>, <<9, 10>>, <<10, 9>>,
+              <<12, 1>>, <<1, 12>>, <<13, 14>>, <<15, 16>>}
+\* <<u0, u1>> for mixed-unit ufuncs on real units (operand 1 is converted to u0): cm->m, km->cm, cm->Mm, mile->km, l_pl->m
+URealPairs == {<<1, 6>>, <<6, 4>>, <<8, 6>>, <<4, 5>>, <<1, 12>>}
+URealOps == {"add", "subtract", "maximum", "less"}
+URealD0 == {"i2", "i4", "i8", "f4", "f8"}
+URealVC1 == {"z0", "s3", "n5", "e11", "g24", "max", "h", "ng"}
 VARIABLE c
 vars == <<c>>
 Init == c = <<>>
@@ -63,7 +73,7 @@ BaseRoutes == {"in_base", "in_mks"}
 \* the direction of the factor (+1 up, -1 down); values are then compared under a stated tolerance
 ConvCase(route, d, vc, from, to, shape, real) ==
   LET vcs == Elems(vc, d, shape)
-      k == IF real THEN (IF from = 5 THEN 1 ELSE -1) ELSE Factor(from, to)
+      k == IF real THEN RealDir(from, to) ELSE Factor(from, to)
       rc == ConvOut(route, d, vcs, k, shape)
       ri == ConvOut(Twin(route), d, vcs, k, shape) IN
   [fam |-> "conv", route |-> route, twin |-> Twin(route), d |-> d, vc |-> vc, from |-> from, to |-> to, k |-> k,
@@ -127,6 +137,16 @@ CombNext ==
       /\ \E va \in CombVA(form, da, de, vb, p[1], p[2], ua) :
            c' = CombCase(form, op, da, de, vb, p[1], p[2], ua, va)
 
+\* mixed-unit ufuncs on units of the default registry: same transition; the rounding of factor products is not
+\* transcribed (tv = does T predict the values?): today the factor is rounded to the float of operand 1's item
+\* size before the product, so values are not predicted unless the tree carries "ufuncscale"
+URealCase(op, d0, d1, vc0, vc1, u0, u1) ==
+  LET r == UfuncOut(op, d0, d1, "none") IN
+  [fam |-> "ureal", op |-> op, d0 |-> d0, d1 |-> d1, vc0 |-> vc0, vc1 |-> vc1, u0 |-> u0, u1 |-> u1,
+   k |-> RealDir(u1, u0), shape |-> "aa", out |-> "none", els |-> UElems(vc0, vc1, d0, d1, "aa"), m |-> r,
+   tv |-> (~IsInt(d1) \/ Size(d1) = 8 \/ "ufuncscale" \in Fixes),
+   mfail |-> {[route |-> op, cl |-> x] : x \in UfuncFails(op, d0, d1, "none", r)}]
+
 Next ==
   /\ c = <<>>
   /\ \/ /\ "conv" \in Fams
@@ -137,8 +157,13 @@ Next ==
      \/ /\ "real" \in Fams
         /\ \E route \in Routes, d \in DT, vc \in ConvVC, p \in RealPairs, shape \in Shapes :
              /\ Applies(vc, d)
-             /\ (route \in BaseRoutes => p[2] = 1)
+             /\ (route \in BaseRoutes => p[2] \in {1, 14})
+             /\ (p[1] = 15 => ~IsComplex(d))
              /\ c' = ConvCase(route, d, vc, p[1], p[2], shape, TRUE)
+     \/ /\ "ureal" \in Fams
+        /\ \E op \in URealOps, d0 \in URealD0, d1 \in DT, vc1 \in URealVC1, p \in URealPairs :
+             /\ Applies(vc1, d1) /\ ~IsComplex(d1)
+             /\ c' = URealCase(op, d0, d1, BaseClass(d0), vc1, p[1], p[2])
      \/ /\ "comb" \in Fams /\ CombNext
      \/ /\ "ufunc" \in Fams
         /\ \E op \in Ops, d0 \in DT, d1 \in DT, vc0 \in UVC0, vc1 \in UVC1, p \in UPairs, shape \in UShapes :
